@@ -3,6 +3,7 @@ package cfgsm
 import (
 	"bufio"
 	"fmt"
+	"io"
 	"net"
 	"os"
 	"path/filepath"
@@ -105,7 +106,9 @@ type Master struct {
 	mu         sync.Mutex
 	ln         net.Listener
 	failResult bool
+	reloadMode string
 	reloads    int
+	received   int
 	lastFailed bool
 }
 
@@ -150,11 +153,27 @@ func (m *Master) FailResult(v bool) {
 	m.mu.Unlock()
 }
 
+// ReloadMode says how the next `reload` commands are treated:
+//
+//	""           answered, haproxy reloads
+//	"reset"      the connection is reset by the peer (ECONNRESET on the client), haproxy does NOT reload
+//	"eof"        the connection is closed without an answer, haproxy does NOT reload
+//	"garbage"    an unexpected answer, haproxy does NOT reload
+//	"eof-ok"     closed without an answer (what a master that re-executes itself does), haproxy reloads
+//	"garbage-ok" an unexpected answer, haproxy reloads
+//
+// In every case the master stays alive and answers the following `show proc` normally.
+func (m *Master) ReloadMode(mode string) {
+	m.mu.Lock()
+	m.reloadMode = mode
+	m.mu.Unlock()
+}
+
 // Reloads is the number of reload commands received.
 func (m *Master) Reloads() int {
 	m.mu.Lock()
 	defer m.mu.Unlock()
-	return m.reloads
+	return m.received
 }
 
 func (m *Master) serve(ln net.Listener) {
@@ -165,21 +184,55 @@ func (m *Master) serve(ln net.Listener) {
 		}
 		func() {
 			defer c.Close()
-			line, err := bufio.NewReader(c).ReadString('\n')
-			if err != nil {
+			// the first bytes tell whether this is `reload`: a reset must leave part of the command unread
+			head := make([]byte, 6)
+			n, err := io.ReadFull(c, head)
+			if err != nil && n == 0 {
 				return
 			}
-			cmd := strings.TrimSpace(line)
+			cmd := string(head[:n])
+			m.mu.Lock()
+			mode := m.reloadMode
+			m.mu.Unlock()
+			if cmd == "reload" && mode == "reset" {
+				// closing a unix stream socket that still holds unread data ("\n") resets the peer
+				m.mu.Lock()
+				m.received++
+				m.mu.Unlock()
+				return
+			}
+			if !strings.HasSuffix(cmd, "\n") {
+				rest, err := bufio.NewReader(c).ReadString('\n')
+				if err != nil {
+					return
+				}
+				cmd += rest
+			}
+			cmd = strings.TrimSpace(cmd)
 			m.mu.Lock()
 			defer m.mu.Unlock()
 			switch cmd {
 			case "reload":
+				m.received++
+				if mode == "eof" || mode == "garbage" {
+					// the command is dropped: nothing is reloaded, the old worker goes on
+					if mode == "garbage" {
+						_, _ = c.Write([]byte("\x00\x7f?? 0x1f\n\n"))
+					}
+					return
+				}
 				m.reloads++
 				m.lastFailed = m.failResult
 				if !m.failResult && m.OnReload != nil {
 					m.OnReload()
 				}
-				_, _ = c.Write([]byte("\n"))
+				switch mode {
+				case "eof-ok":
+				case "garbage-ok":
+					_, _ = c.Write([]byte("\x00\x7f?? 0x1f\n\n"))
+				default:
+					_, _ = c.Write([]byte("\n"))
+				}
 			case "show proc":
 				out := "#<PID>          <type>          <relative PID>  <reloads>       <uptime>        <version>\n" +
 					fmt.Sprintf("1               master          0               %-15d 0d00h00m08s     2.2.3-0e58a34\n", m.reloads) +
